@@ -77,6 +77,14 @@ CHECKS = {
                 technique="exhaustive enumeration of all strings up to a length bound over a class-representative alphabet, all segment lists and replacement tables over representatives, against a hand-written DFA and list model",
                 text="All strings of length <= 7 (quick) / 8 (thorough) over a 10-symbol class-representative alphabet as single segments; all segment lists of length <= 3 (4) over 11 representative segments; Path::new over all ident x module-path combinations; new_with_replace over all replacement tables of <= 2 (3) entries. Oracle: DFA for (r#)?[A-Za-z_][A-Za-z0-9_]* and a list model for order / ident / namespace / display / first offending position / panic-iff-error.",
                 note="One representative per character class (lower, upper, underscore, digit, 'r', '#', ':', space, '-', non-ASCII); longer strings and other characters of the same class are assumed equivalent."),
+    "C15": dict(cat="exploration", design="§4 C15", engine="gen/features.py (fingerprint binary per feature set)",
+                technique="exhaustive enumeration of the crate's feature configurations (all 48 distinct subsets in thorough, a 9-set pairwise cover in quick), one fingerprint binary per configuration over a fixed corpus, byte comparison",
+                text="A fingerprint binary registering 518 derived definitions (docs everywhere, every attribute overlay), ~600 built-in type expressions, hand-written impls with feature-gated and always docs and odd type-name whitespace, and (with bit-vec) 144 BitVec types is built against /repo under every feature set; encode(PortableRegistry) per section must be byte-identical across all sets with equal docs setting, and across the docs setting after blanking every docs list (decoded / re-encoded by the independent refscale).",
+                note="derive is always on; schema implies std; the no_std build is linked into a std binary."),
+    "C19": dict(cat="exploration", design="§4 C19", engine="gen/schema.py (vengine --features schema + python jsonschema)",
+                technique="exhaustive enumeration of the registry value space serialised under the schema feature and validated against schema_for!(PortableRegistry) with an independent Draft-7 validator, with liveness controls",
+                text="~415k entries (quick) / several million (thorough) of regspace serialised by the library's own serde impls are validated entry by entry, plus whole documents (the empty registry produced three ways, every U1 registry, retain results); six known-invalid control documents must be rejected or the run is a machinery error.",
+                note="python jsonschema Draft7Validator is trusted; schemars 0.8 generates the schema."),
     "C20": dict(cat="exploration", design="§4 C20, §3.7", engine="gen/negative.py (rustc per program)",
                 technique="exhaustive enumeration of a negative grammar: each ill-formed construction in every builder position / attribute combination compiled on its own by rustc, paired with a well-formed twin",
                 text="600 (quick) / ~800 (thorough) programs: type without path, variant without index, field without type, named among unnamed and vice versa, field on unit fields — every interleaving with the optional setters, compile-time and portable builders, struct and variant contexts; derive: unions, unknown container attributes at every position, a repeated bounds / skip_type_params / capture_docs / crate within one list and across two or three lists, invalid capture_docs values, bounds leaving a non-skipped parameter unbound. Verdict per pair: the ill-formed program is rejected while the twin (differing only in the offending construct) is accepted.",
